@@ -62,6 +62,7 @@ func (hs *heightSub) SetHeight(height uint64) {
 		if !hs.height.CompareAndSwap(curr, height) {
 			continue
 		}
+		simYield("heightsub:SetHeight:after-cas")
 
 		hs.heightSubsLk.Lock()
 		defer hs.heightSubsLk.Unlock()
@@ -80,6 +81,7 @@ func (hs *heightSub) Wait(ctx context.Context, height uint64) error {
 	if hs.Height() >= height {
 		return errElapsedHeight
 	}
+	simYield("heightsub:Wait:before-lock")
 
 	hs.heightSubsLk.Lock()
 	if hs.Height() >= height {
@@ -99,6 +101,7 @@ func (hs *heightSub) Wait(ctx context.Context, height uint64) error {
 	}
 	sac.count++
 	hs.heightSubsLk.Unlock()
+	simYield("heightsub:Wait:registered")
 
 	select {
 	case <-sac.signal:
